@@ -19,10 +19,22 @@ pub struct Ctl {
 }
 
 thread_local! { static CTL: RefCell<Option<Arc<Ctl>>> = RefCell::new(None); }
+static GLOBAL_CTL: Mutex<Option<Arc<Ctl>>> = Mutex::new(None);
+
+/// controller used by unregistered threads (the pool thread executing Worker::run) at `run.*` sites
+pub fn set_global(ctl: Option<Arc<Ctl>>) {
+    *GLOBAL_CTL.lock().unwrap() = ctl;
+}
+pub fn new_ctl(ignore: Vec<&'static str>) -> Arc<Ctl> {
+    Arc::new(Ctl { st: Mutex::new((St::Running, false)), cv: Condvar::new(), ignore })
+}
 
 pub fn install_hook() {
     nucleo::verif::set_hook(Some(Arc::new(|site, arg| {
-        let ctl = CTL.with(|c| c.borrow().clone());
+        let mut ctl = CTL.with(|c| c.borrow().clone());
+        if ctl.is_none() && site.starts_with("run.") {
+            ctl = GLOBAL_CTL.lock().unwrap().clone();
+        }
         if let Some(ctl) = ctl {
             if ctl.ignore.iter().any(|s| *s == site) {
                 return;
@@ -132,5 +144,38 @@ impl Thread {
                 _ => {}
             }
         }
+    }
+}
+
+/// controller-side view of a thread we did not spawn (parks at yield points through the global ctl)
+pub struct Foreign {
+    pub ctl: Arc<Ctl>,
+}
+impl Foreign {
+    pub fn state(&self) -> St {
+        self.ctl.st.lock().unwrap().0.clone()
+    }
+    /// wait until it is parked (bounded)
+    pub fn wait_parked(&self, ms: u64) -> St {
+        let mut g = self.ctl.st.lock().unwrap();
+        let deadline = std::time::Instant::now() + Duration::from_millis(ms);
+        loop {
+            if let St::Parked(..) = g.0 {
+                return g.0.clone();
+            }
+            let now = std::time::Instant::now();
+            if now >= deadline {
+                return g.0.clone();
+            }
+            let (ng, _) = self.ctl.cv.wait_timeout(g, deadline - now).unwrap();
+            g = ng;
+        }
+    }
+    /// release it from its yield point; does not wait
+    pub fn go(&self) {
+        let mut g = self.ctl.st.lock().unwrap();
+        g.1 = true;
+        g.0 = St::Running;
+        self.ctl.cv.notify_all();
     }
 }
